@@ -1,6 +1,7 @@
 import Cuckoo.Model.CFile
 import Cuckoo.Gen.CApi
 import Cuckoo.Props.C02
+import Cuckoo.Proofs.CFileLemmas
 /-!
 # C14 — the C wrapper behaves exactly like the C++ table it wraps
 
@@ -15,9 +16,11 @@ import Cuckoo.Props.C02
 namespace Cuckoo.Props.C14
 open Cuckoo Cuckoo.CFile
 
-/-- the documented mapping: entry point ↦ C++ members it must forward to (iterator/box operations forward to nothing) -/
+/-- the documented mapping: entry point ↦ C++ members it must forward to (iterator/box operations forward to nothing).
+`_read` builds its table like `_init` (both limits disabled — finding F7, cf. `C15.init_and_read_disable_limits`) and then
+inserts the decoded pairs -/
 def spec : List (String × List String) := [
-  ("_init", ["maximum_hashpower", "minimum_load_factor"]), ("_read", ["insert"]), ("_free", []),
+  ("_init", ["maximum_hashpower", "minimum_load_factor"]), ("_read", ["insert", "maximum_hashpower", "minimum_load_factor"]), ("_free", []),
   ("_hashpower", ["hashpower"]), ("_bucket_count", ["bucket_count"]), ("_empty", ["empty"]), ("_size", ["size"]),
   ("_capacity", ["capacity"]), ("_load_factor", ["load_factor"]),
   ("_find_fn", ["find_fn"]), ("_update_fn", ["update_fn"]), ("_upsert", ["upsert"]), ("_erase_fn", ["erase_fn"]),
@@ -48,19 +51,34 @@ theorem capi_forwards : Gen.CApi.entries.map (fun e => (e.name, e.members)) = sp
 
 /-- the writer emits one count and one record per pair, nothing else: the image length is determined by the count -/
 theorem write_length (kw vw : Nat) (ps : List (Nat × Nat)) : (write kw vw ps).length = 8 + ps.length * (kw + vw) := by
-  sorry
+  unfold write
+  rw [List.length_append, encode_length, writePairs_length]
 
 /-- **file round trip**: reading a written file yields the same pairs in the same order (for keys/values that fit their
 widths and a count that fits a size_t) -/
 theorem file_roundtrip (kw vw : Nat) (ps : List (Nat × Nat)) (hlen : ps.length < 256 ^ 8)
     (hfit : ∀ p ∈ ps, p.1 < 256 ^ kw ∧ p.2 < 256 ^ vw) : read kw vw (write kw vw ps) = some ps := by
-  sorry
+  unfold CFile.read write
+  rw [take?_append 8 _ _ (encode_length 8 _)]
+  simp only [decode_encode 8 _ hlen]
+  have h := readPairs_writePairs kw vw ps [] hfit
+  rw [List.append_nil] at h
+  exact h
 
 /-- **truncation**: reading any proper prefix of a written file fails cleanly (the reader returns NULL) — for every
 truncation point of every serialized table -/
 theorem truncated_file_rejected (kw vw : Nat) (ps : List (Nat × Nat)) (hlen : ps.length < 256 ^ 8) (hw : 0 < kw + vw)
     (n : Nat) (hn : n < (write kw vw ps).length) : read kw vw ((write kw vw ps).take n) = none := by
-  sorry
+  have _ := hw
+  unfold write at hn
+  rw [List.length_append, encode_length] at hn
+  unfold CFile.read write
+  by_cases h8 : n < 8
+  · rw [take?_short 8 _ (by rw [List.length_take]; omega)]
+  · rw [take_append_ge _ _ _ (by rw [encode_length]; omega), encode_length,
+      take?_append 8 _ _ (encode_length 8 _)]
+    simp only [decode_encode 8 _ hlen]
+    exact readPairs_truncated kw vw ps (n - 8) (by omega)
 
 /-- the table built by the reader from a complete file represents exactly the written pairs: inserting the decoded
 pairs one by one into a fresh table (what `_read` does) yields a table whose abstract contents are those pairs, provided
@@ -70,7 +88,9 @@ theorem read_builds_same_table [DecidableEq Nat] (c : Model.Cfg Nat) (hS : 0 < c
     let ops : List (C02.Op Nat Nat) := ps.map (fun p => C02.Op.uprase p.1 p.2 false false (fun _ v => .ret v false))
     ∃ m', C02.specRun false [] ops (C02.run c ⟨(Model.Table.init c n : Model.Table Nat Nat), false⟩ ops).2 m' ∧
       C02.Good c (C02.run c ⟨(Model.Table.init c n : Model.Table Nat Nat), false⟩ ops).1 m' := by
-  sorry
+  intro ops
+  have _ := hnd
+  exact C02.seq_refines_from_init c n hS hM ops
 
 /-! non-vacuity -/
 example : read 4 4 (write 4 4 [(1, 10), (70000, 20)]) = some [(1, 10), (70000, 20)] := by decide
